@@ -25,7 +25,7 @@ LEVEL_TEXT = {
  "C18": COMMON + "Here: each message type with all fields symbolic including malformed ones (signs, denoms, addresses, times, bid types, absent auction) in RI-states of every type/status: ValidateBasic+handler accepts iff a reference predicate written from the documentation (both directions), and an accepted message stores exactly the announced record.",
  "C19": COMMON + "Here: frame: with a bystander auction B sharing auctioneer, bidder and denoms, processing/operating on A leaves every record, counter and escrow balance of B term-identical; terms: after every operation the agreed terms of the target auction and the identity of its bids are unchanged; ids: creation uses AuctionSeq and increments it, bids get BidSeq+1.",
 }
-NOTES = {p: "Trusted base: exact integer semantics of ~60 cosmossdk.io/math intrinsics (validated every run by witness replay of real arithmetic), store/bank/distribution/context models (every harness's witness scenario is replayed against simapp with the real x/bank and KV store and all observed values must agree), go/ssa. Bounds per tier are in checks.tsv and in the evidence (harness bounds): quick = 1 target auction (+1 bystander), <=1-2 bids, <=1-2 instalments/end times, amounts and raw prices < 2^100; thorough = <=2-3 bids, <=2-4 instalments, <=3 end times, < 2^128. Overflow panics of the 256/315-bit library limits are outside the quick claim (amounts bounded). Atomicity of rejected transactions is the SDK cache-context contract (assumed)." for p in LEVEL_TEXT}
+NOTES = {p: "Trusted base: exact integer semantics of ~60 cosmossdk.io/math intrinsics (validated every run by witness replay of real arithmetic), store/bank/distribution/context models (every harness's witness scenario is replayed against simapp with the real x/bank and KV store and all observed values must agree), go/ssa. Bounds per tier are in checks.tsv and in the evidence (harness bounds), summarised in DESIGN.md section 12 'Bounds as finally registered': quick = 1 target auction (+1 bystander), general shapes with <=1 bid and <=2 instalments/end times plus narrow multi-bid variants (2 fixed-price bids, 2 batch bids in the second round, 3-bid order books in the matching harness, 4 instalments), amounts and raw prices < 2^100; thorough = general shapes with <=3 instalments/end times and 2 candidate bidders, narrow variants with 2-3 bids of up to 2 bidders, 3-4 bid order books, message harnesses with <=2 existing bids, < 2^128. Every 100th discharged assertion is re-checked by a second solver (cvc5). Overflow panics of the 256/315-bit library limits are outside the claim (amounts bounded). Atomicity of rejected transactions is the SDK cache-context contract (assumed)." for p in LEVEL_TEXT}
 NOT_APPLICABLE = {
  "C20": "start-up and command wiring of the linked binary is decided by reflection-heavy dependency code (autocli/cobra/protoregistry) over a constant command table; there is no symbolic input to quantify over and the code is out of reach of the SSA encoder (DESIGN §7)",
 }
